@@ -18,4 +18,11 @@ func init() {
 		Old: "StateVars: []string{\"Proc1.a\", \"Proc1.b\", \"Proc1.c\"},", New: "StateVars: []string{\"Proc1.b\", \"Proc1.a\", \"Proc1.c\"},", Expect: "Proc1:procedure"})
 	seed(Seed{Name: "extra-resource-read", Prop: "C02", Rule: "SPEC-MATCH", File: "systems/dqueue/dqueue.go",
 		Old: "\t\t\terr = iface.Write(requester, nil, exprRead0)", New: "\t\t\tvar extra tla.Value\n\t\t\textra, err = iface.Read(net1, []tla.Value{iface.Self()})\n\t\t\tif err != nil {\n\t\t\t\treturn err\n\t\t\t}\n\t\t\t_ = extra\n\t\t\terr = iface.Write(requester, nil, exprRead0)", Expect: "dqueue/AProducer.p1"})
+	// spec-side seeds (applied through the text overlay): the spec is edited without regenerating the Go
+	seed(Seed{Name: "spec-junction-item-moved-out", Prop: "C02", Rule: "SPEC-MATCH", File: "systems/raftkvs/raftkvs.tla",
+		Old: "                           /\\ state[i] = Follower\n                           /\\ \\lnot logOK\n", New: "                           /\\ state[i] = Follower\n                        \\/ \\lnot logOK\n", Expect: "AServer.handleMsg"})
+	seed(Seed{Name: "spec-parentheses-dropped", Prop: "C02", Rule: "SPEC-MATCH", File: "systems/gcounter/gcounter.tla",
+		Old: "await cntr[self] >= (r + 1) * NUM_NODES;", New: "await cntr[self] >= r + 1 * NUM_NODES;", Expect: "ANodeBench.waitInc"})
+	seed(Seed{Name: "go-call-argument-regrouped", Prop: "C02", Rule: "SPEC-MATCH", File: "systems/gcounter/gcounter.go",
+		Old: "tla.ModuleAsteriskSymbol(tla.ModulePlusSymbol(condition2, tla.MakeNumber(1)), iface.GetConstant(\"NUM_NODES\")())", New: "tla.ModulePlusSymbol(condition2, tla.ModuleAsteriskSymbol(tla.MakeNumber(1), iface.GetConstant(\"NUM_NODES\")()))", Expect: "ANodeBench.waitInc"})
 }
